@@ -11,6 +11,7 @@
 #include <Eigen/Eigenvalues>
 
 #include "../Util/SelectionRule.h"
+#include "../Util/VerifHooks.h"
 
 namespace Spectra {
 
@@ -22,6 +23,9 @@ class SearchSpace;
 template <typename Scalar>
 class RitzPairs
 {
+#ifdef SPECTRA_VERIF
+    friend struct ::SpectraVerifAccess;
+#endif
 private:
     using Index = Eigen::Index;
     using Matrix = Eigen::Matrix<Scalar, Eigen::Dynamic, Eigen::Dynamic>;
